@@ -35,9 +35,11 @@ def check(a):
 def replay_roundtrip(inp):
     cands = []
     a = SFTPAttributes()
-    if inp.get("size?") not in (None, "none") and "size" in inp:
-        a.st_size = int(inp["size"])
-    n = int(inp.get("n", 1) or 1)
+    for fld, attr in (("size", "st_size"), ("uid", "st_uid"), ("gid", "st_gid"), ("mode", "st_mode"),
+                      ("atime", "st_atime"), ("mtime", "st_mtime")):
+        if inp.get(fld + "?") not in (None, "none"):
+            setattr(a, attr, int(inp.get(fld, 0) or 0))
+    n = int(inp.get("n", 0) or 0)
     k1, v1 = seq_bytes(inp.get("k1"), b"k1"), seq_bytes(inp.get("v1"), b"v1")
     k2, v2 = seq_bytes(inp.get("k2"), b"k2"), seq_bytes(inp.get("v2"), b"v2")
     if n >= 1:
